@@ -138,6 +138,16 @@ check("C11", "exploration",
       "Dependence class known by construction and cross-checked with CPython label tracking in C10. Small scope (<=1 link).",
       "bounded exhaustive enumeration of programs x rule sets, rule-matching model + construction-known dependence oracle", "DESIGN.md §2 C11")
 
+check("C12", "exploration",
+      "Base programs (12 taint programs of the C10 generator, 10 call-pattern programs of C07; thorough 18 + 16) x every single edit: "
+      "blank line and comment line at every (quick: every 4th) line position, consistent rename of every function / class / local "
+      "that occurs, no-op statement at top-level positions, swap of every adjacent pair of independent top-level definitions, move of "
+      "a pure top-level function into a new file + import; 888 (base, edited) pairs of real `run`s in quick. No expected values: call "
+      "edges (by file + method name, with call line) and taint flows (source line, sink line) must agree under the edit's line / "
+      "name map.",
+      "Single edits only (no sequences). Python frontend only. Bindings are compared through their effect on call edges and flows.",
+      "exhaustive enumeration of (program, edit) pairs, metamorphic relation oracle", "DESIGN.md §2 C12")
+
 check("C13", "exploration",
       "Complete sweep of 16 adversarial program families - direct recursion, mutual-recursion ring, higher-order self application, "
       "cyclic import ring, cyclic object graph, loops nested n deep, call chains with 1/2/3 call sites per function, many call sites, "
